@@ -71,7 +71,15 @@ def c15(run):
         if m <= 5 and n <= 5:
             sample.append("ctu %d %s" % (rng.choice(option_masks(rng, "quick")[:15]), mt))
     run.batch("asan-sample", sample, "asan")
-    return dict(rule="exhaustive: every 0/1 matrix with <=%d rows and <=%d columns (incl. 0 rows/columns) x every (row,column) "
+    # wide and tall shapes: the loops over complemented rows / columns have different bounds only there
+    wide = []
+    for _ in range(1500 if quick else 30000):
+        a, b = rng.randint(1, 3), rng.randint(5, 8)
+        m, n = (a, b) if rng.random() < 0.5 else (b, a)
+        e = rand_mat(rng, m, n, (1,), rng.choice((0.3, 0.5, 0.7)))
+        wide.append("ctu %d %s" % (DEFAULT_MASK, mat_tokens(m, n, e)))
+    run.batch("ctu-wide-and-tall", wide, "plain")
+    return dict(rule="wide/tall 1-3 x 5-8 matrices for the CTU test; exhaustive: every 0/1 matrix with <=%d rows and <=%d columns (incl. 0 rows/columns) x every (row,column) "
                 "choice incl. 'none' for the complement op; every such matrix for the CTU test; plus seeded random up to 7x7 under "
                 "ASan/UBSan. An op is non-trivial and distinct when the judge accepted it (exact equality with the model / verdict "
                 "equal to the definition and witness validated) and its op line is new." % (maxm, maxn),
@@ -779,7 +787,13 @@ def c16(run):
         e = [rng.choice((0, 1, -1, big, -big, big - 1)) for _ in range(m * n)]
         more.append("equimod %s 0 %s" % (rng.choice(("e", "es", "u")), mat_tokens(m, n, e)))
     run.batch("random+near-overflow", more, "asan")
-    return dict(rule="exhaustive: every integer matrix with entries in {-2..2} of shape 2x2, 1x3, 3x1 and in {-1,0,1,2} of shape 2x3, 3x2 "
+    wide = []
+    for _ in range(40000 if quick else 400000):
+        m = rng.randint(2, 3); n = rng.randint(m + 1, 5)
+        e = rand_mat(rng, m, n, (-3, -2, -2, -1, 1, 2, 2, 3), rng.choice((0.6, 0.8, 1.0)))
+        wide.append("equimod %s 0 %s" % (rng.choice(("e", "e", "e", "u")), mat_tokens(m, n, e)))
+    run.batch("wide-with-fractional-solutions", wide, "plain")
+    return dict(rule="wide 2-3 x 3-5 matrices with entries up to 3 (determinant gcd > 1 and non-integral X frequent); exhaustive: every integer matrix with entries in {-2..2} of shape 2x2, 1x3, 3x1 and in {-1,0,1,2} of shape 2x3, 3x2 "
                 "(thorough: more) through CMRequimodularTest with and without a requested k and through the strong / unimodular variants; "
                 "degenerate shapes; seeded 1x1..4x4 matrices with entries up to 4 (k>1 frequent); entries near 2^15, 2^16, 2^31 (overflow "
                 "boundary: the only admissible answers are the exact one or err:OVERFLOW). Judged against the exact-arithmetic model "
